@@ -81,6 +81,7 @@ var forms = []string{
 	"variadic-spread-call",     // return ..., joinAll(errList...)      ([]error spread into ...error)
 	"variadic-listed-call",     // return ..., joinAll(errSentinel, errOther)
 	"named-compound-assign",    // named only: s, err = lits; n <<= uint8(3) style compound update of a local, bare return
+	"closure-with-any-result",  // return ..., wrapAny(func() (any, error) { return 42, nil }): a closure result of type any is no error
 }
 
 func zeroExprs(sh int, v int) []string {
@@ -180,6 +181,13 @@ func (p Prog) body(i int) (src string, want [][]string) {
 			return "return " + strings.Join(exprs, ", "), nil
 		}
 		return ret(0), wantOf(0)
+	case "closure-with-any-result":
+		if ts[len(ts)-1] == "error" {
+			exprs := zeroExprs(sh, 0)
+			exprs[len(exprs)-1] = "wrapAny(func() (any, error) {\n\t\tif cond {\n\t\t\treturn \"cached\", nil\n\t\t}\n\t\treturn 42, errSentinel\n\t})"
+			return "return " + strings.Join(exprs, ", "), nil
+		}
+		return ret(1), wantOf(1)
 	case "closure-fewer-results":
 		if ts[len(ts)-1] == "error" {
 			exprs := zeroExprs(sh, 0)
@@ -255,6 +263,7 @@ func (p Prog) source(name string) (string, [][][]string) {
 	b.WriteString("var cond bool\n\nvar errSentinel = errors.New(\"sentinel\")\n\ntype doer interface {\n\tDo() error\n\tName() string\n}\n\nvar iface doer\n\nvar _ = dep.Name\n\nvar ch chan int\n\nvar anyV any\n\n")
 	b.WriteString("func wrapErr(f func() (int, string, error)) error {\n\t_, _, err := f()\n\treturn err\n}\n\n")
 	b.WriteString("func wrapTwo(f func() error) error { return f() }\n\n")
+	b.WriteString("func wrapAny(f func() (any, error)) error {\n\t_, err := f()\n\treturn err\n}\n\n")
 	b.WriteString("var errList []error\n\nfunc joinAll(errs ...error) error { return errors.Join(errs...) }\n\n")
 	wants := make([][][]string, len(p.Shapes))
 	// source order: f0 first, so a function calling a higher-numbered one is a caller ABOVE its callee
